@@ -30,7 +30,14 @@ _CTX = None
 _CUR = {}
 
 
+# harness-built cases in which the assembly's own scaffold list cannot say which scaffold a query is about
+# (the scaffold was renamed after it was added; the assembly was built from a one-shot iterable)
+KNOWN_SCAFFOLD = {}
+
+
 def _scaffold_of(self, bait):
+    if (id(self), bait.name) in KNOWN_SCAFFOLD:
+        return KNOWN_SCAFFOLD[(id(self), bait.name)]
     for s in self.scaffolds:
         if s.name == bait.name:
             return s
@@ -46,6 +53,8 @@ def _check(ctx, scffld, bait, result, exc, origin):
     for lab in overlap_ref.classify(rows, a, b):
         ctx.count(f"class:{lab}")
     case = {"kind": "query", "rows": rows, "a": a, "b": b}
+    if KNOWN_SCAFFOLD.get("mode"):
+        case["mode"] = KNOWN_SCAFFOLD["mode"]
     if exc is not None:
         ctx.count("outcome:raised")
         sig = "raised-" + type(exc).__name__
@@ -175,6 +184,7 @@ def run_random(shard, ctx):
     for i in range(shard["n"]):
         rng = rng_for(shard["seed"], "c12r", shard["index"], i)
         rows = gen_random_rows(rng)
+        KNOWN_SCAFFOLD.clear()
         if i % 7 == 3:
             # a chromosome longer than 2**32 bp (lungfish-sized): lengths are plain integers
             k = rng.randrange(len(rows))
@@ -191,8 +201,34 @@ def run_random(shard, ctx):
                 buf.reverse()
                 del buf[len(buf) // 2 :]
                 ctx.count("class:callers-row-list-reused-after-construction")
+            elif i % 4 == 1:
+                # the scaffolds are handed over as a one-shot iterable (generator expression, iter, filter, map)
+                from tola.assembly.indexed_assembly import IndexedAssembly
+
+                KNOWN_SCAFFOLD.clear()
+                sc_ = build_scaffold(["s", rows])
+                src = [sc_, build_scaffold(["other", gen_random_rows(rng, maxrows=4)])]
+                how = rng.choice(["genexp", "iter", "filter", "map"])
+                it = {"genexp": (x for x in src if x.rows), "iter": iter(src), "filter": filter(lambda x: x.rows, src), "map": map(lambda x: x, src)}[how]
+                ia = IndexedAssembly("x", scaffolds=it)
+                KNOWN_SCAFFOLD[(id(ia), "s")] = sc_
+                KNOWN_SCAFFOLD["mode"] = "one-shot-iterable"
+                ctx.count("class:scaffolds-given-as-one-shot-iterable")
             else:
+                KNOWN_SCAFFOLD.clear()
                 ia = _mk(rows)
+                if i % 8 == 0:
+                    # the Scaffold object is renamed in place after it was added (as the naming steps of the
+                    # pipeline do); the assembly is still asked under the name the scaffold was added as
+                    sc_ = next(iter(ia.scaffolds))
+                    KNOWN_SCAFFOLD[(id(ia), "s")] = sc_
+                    if rng.random() < 0.5:
+                        ia.add_scaffold(build_scaffold(["zz", gen_random_rows(rng, maxrows=5)]))
+                        sc_.name = "zz2"
+                    else:
+                        sc_.name = rng.choice(["SUPER_1", "renamed", "s_unloc_1"])
+                    KNOWN_SCAFFOLD["mode"] = "renamed-after-add"
+                    ctx.count("class:scaffold-renamed-after-it-was-added")
         except Exception as e:  # noqa: BLE001
             ctx.violation(f"indexing-scaffold-raised-{type(e).__name__}", f"IndexedAssembly(...) raised {type(e).__name__}: {e}; rows={rows[:6]}", {"kind": "query", "rows": rows, "a": 1, "b": 1})
             continue
@@ -309,7 +345,18 @@ def run(shard, ctx):
 
 def replay(case, ctx):
     attach(ctx, "replay")
-    ia = _mk(case["rows"])
+    KNOWN_SCAFFOLD.clear()
+    if case.get("mode") == "one-shot-iterable":
+        from tola.assembly.indexed_assembly import IndexedAssembly
+
+        sc_ = build_scaffold(["s", case["rows"]])
+        ia = IndexedAssembly("x", scaffolds=iter([sc_]))
+        KNOWN_SCAFFOLD[(id(ia), "s")] = sc_
+    else:
+        ia = _mk(case["rows"])
+        if case.get("mode") == "renamed-after-add":
+            KNOWN_SCAFFOLD[(id(ia), "s")] = next(iter(ia.scaffolds))
+            next(iter(ia.scaffolds)).name = "renamed"
     _query(ia, "s", case["a"], case["b"])
 
 
@@ -339,6 +386,8 @@ def gates(c, tier):
         "outcome:none": 100,
         "insitu:queries": 100,
         "class:scaffold-longer-than-2^32": 50,
+        "class:scaffolds-given-as-one-shot-iterable": 500,
+        "class:scaffold-renamed-after-it-was-added": 500,
         "class:lookup-after-refused-duplicate-add": 50,
         "class:assemblies-derived-from-one-another": 50,
         "class:same-scaffold-object-edited-and-indexed-again": 500,
